@@ -160,7 +160,22 @@ def main():
                  'the correspondence harness (tools/checks/locale_common.py, Driver/Locale.lean)'],
         explanation=EXPLANATION)
 
-EXPLANATION = 'see DESIGN-notes/locale.md'
+EXPLANATION = (
+    'Proved for ALL inputs (Props/C19.lean): clause 1 - regex_pin (the re._parser tree of _language_regexp, regenerated each run, is the '
+    'locale grammar anchored with \\Z), parse_iff_grammar / parse_iff_locale_name (accepted iff in the language of the regex iff '
+    'll[_CC][.encoding][@modifier]), print_parse / print_parse_exact / print_parse_upper / parse_print / parse_str_parse / parse_wf / '
+    'render_injective (round trips up to the case of the encoding; the grammar is unambiguous); clause 2 - fix_codes_spec, '
+    'fix_codes_three_to_two, fix_codes_rejects, fix_codes_idempotent (general lemma + kernel-checked side conditions on the generated '
+    '617-key table), iso_tables_loaded + fix_codes_by_data (the loaded tables are what the modelled _read_iso_codes loop builds from '
+    'the rows of data/iso-codes); clause 3 - language_tags_iff (whenever check_language returns, its tags with extras and order and '
+    'ctx.language equal the reference verdict Spec.LocaleTags, for every option / path / Language / X-Poedit-* values and every '
+    'munch function), cli_language_spec, language_disparity_iff, invalid_language_iff, unable_to_determine_iff, '
+    'final_language_none_iff, name_correction_sound/complete, almost_equal_equivalence; NoCrash - check_language_error_kinds, '
+    'check_language_nocrash (file type derived from the name), leaf_error_kinds. OUTSTANDING: nothing of the design list. '
+    'TEST-LEVEL ONLY: the models of os.path.normpath/basename/splitext, the Unicode tables behind _munch_language_name, and that '
+    'Spec.LocaleRe.Matches is what CPython re decides - all tied by the correspondence streams; header parsing into ctx.metadata belongs to C15 '
+    '(covered here by the e2e-cli stream on real files). FINDINGS (both fixed in /repo, re-found by this check on the unfixed tree): '
+    "parse_language('pl\\n') accepted (6815428); '/None/' in the path dropped the base-name language when the Language field had unknown codes (06a1780).")
 
 if __name__ == '__main__':
     common.main_wrapper(main)
